@@ -198,7 +198,7 @@ func derefUses(v ssa.Value, depth int) []derefUse {
 				if cal == nil || cal.Blocks == nil {
 					continue
 				}
-				if i < len(cal.Params) && derefsParamUnconditionally(cal, cal.Params[i]) {
+				if i < len(cal.Params) && (derefsParamUnconditionally(cal, cal.Params[i]) || derefsParamUnguarded(cal, cal.Params[i])) {
 					out = append(out, derefUse{x, "passed to " + cal.Name() + " which dereferences it"})
 				}
 			}
@@ -226,6 +226,45 @@ func derefsParamUnconditionally(fn *ssa.Function, p *ssa.Parameter) bool {
 			if x.X == p && x.Op.String() == "*" {
 				return true
 			}
+		}
+	}
+	return false
+}
+
+// nilmapFacts is set by the property that runs the NILMAP scan (facts are needed to judge guards inside callees).
+var nilmapFacts *Facts
+
+// derefsParamUnguarded: somewhere in the callee the parameter is dereferenced (field access or load) at a point
+// that is not dominated by a test establishing that it is non-nil.
+func derefsParamUnguarded(fn *ssa.Function, p *ssa.Parameter) bool {
+	if nilmapFacts == nil || p.Referrers() == nil {
+		return false
+	}
+	pt := termOf(p).String()
+	for _, r := range *p.Referrers() {
+		var at ssa.Instruction
+		switch x := r.(type) {
+		case *ssa.FieldAddr:
+			if x.X == ssa.Value(p) {
+				at = x
+			}
+		case *ssa.UnOp:
+			if x.X == ssa.Value(p) && x.Op.String() == "*" {
+				at = x
+			}
+		}
+		if at == nil {
+			continue
+		}
+		fs := nilmapFacts.FactsAt(at)
+		if fs.Bottom {
+			continue
+		}
+		_, guarded := fs.find(func(f Fact) bool {
+			return factNilTerm(f, false, func(t *Term) bool { return t.String() == pt })
+		})
+		if !guarded {
+			return true
 		}
 	}
 	return false
